@@ -200,3 +200,85 @@ def check_negacyclic(p, res, rule, prefixes):
         else:
             res.ok(rule, {"fn": f.pretty, "paths": len(paths)})
     return n
+
+
+def check_rotation_skips(p, res, rule, prefixes):
+    """functions that take a rotation exponent and hand it to a rotation kernel: a returning path that skips the kernel because of a test on the
+    exponent must test its residue modulo 2N (mask 2n-1), not modulo N"""
+    from . import sc
+    from .cfg import CFG
+    from .sym import Sym
+    n = 0
+
+    def mask2n(key):
+        return any(abs(c) == 2 for mono, c in key if mono)
+
+    def mentions(a, pidx, depth=0):
+        if depth > 12 or not isinstance(a, tuple):
+            return False
+        if len(a) == 3 and a[0] == "p" and a[1] == pidx:
+            return True
+        return any(mentions(x, pidx, depth + 1) for x in a if isinstance(x, tuple))
+
+    def residue_kind(poly, pidx):
+        """'2n' | 'n' | 'raw' | None: how the exponent enters a compared value"""
+        kinds = set()
+        for a in poly.atoms():
+            if not mentions(a, pidx):
+                continue
+            if a[0] == "f" and a[1] == "BitAnd" and len(a[2]) == 2:
+                x, m = a[2]
+                if mask2n(m) or mask2n(x):
+                    kinds.add("2n")
+                else:
+                    kinds.add("n")
+            elif a[0] == "p":
+                kinds.add("raw")
+            else:
+                kinds.add("other")
+        return kinds
+
+    for f in sorted(p.lib_fns(), key=lambda x: x.uid):
+        if f.kind == "Closure" or not f.uid.startswith(prefixes):
+            continue
+        pn = f.param_names()
+        exps = [l for l, nm in pn.items() if nm in ("p", "k") and f.local_ty(l)["s"] == "i64"]
+        if not exps:
+            continue
+        rot = {bi for bi, t in f.calls() if "rotate" in (f.callee_def(t) or {}).get("n", "")}
+        if not rot:
+            continue
+        pidx = exps[0]
+        n += 1
+        g = CFG(f)
+        paths = sc.returning_paths(f, g, cap=256)
+        if not paths:
+            res.undec(rule, "%s: paths not enumerable" % f.pretty)
+            continue
+        flow = Flow(f)
+        sym = Sym(f, flow)
+        bad = None
+        for path in paths:
+            if any(b in rot for b in path):
+                continue
+            kinds = set()
+            for b in path:
+                t = f.blocks[b]["t"]
+                if not t or t["k"] != "Switch":
+                    continue
+                for r in flow.op_roots(t["o"]):
+                    if r[0] != "bin":
+                        continue
+                    st = f.blocks[r[1]]["s"][r[2]][2]
+                    for o in st["o"]:
+                        kinds |= residue_kind(sym.operand(o), pidx)
+            if "n" in kinds and "2n" not in kinds:
+                bad = path
+                break
+        if bad:
+            res.bad(rule, f.pretty, "skip-decided-modulo-N",
+                    "%s returns without calling its rotation kernel on a path decided by the exponent modulo N only: exponents congruent to N modulo 2N need the negated result (X^N = -1)" % f.pretty,
+                    site=f.where())
+        else:
+            res.ok(rule, {"fn": f.pretty, "paths": len(paths), "rotation_calls": len(rot)} if n % 5 == 1 else None)
+    return n
